@@ -422,6 +422,13 @@ def run(R, out, tier="quick"):
             emit(tag, w.out, "asm:" + ",".join("%d=%s" % (k, w.points[k][1][a]) for k, a in sorted(ov.items())), w.textfloat)
             stats["assembled"] += 1
             if len(ov) >= maxdev:
+                # quick tier: one extra, *adjacent* deviation - an alternative type code together with FLAG_REF on the
+                # same node (the two choice points of one object), so that every type code is also seen flagged
+                if len(ov) == 1 and maxdev == 1 and last + 1 < len(w.points) and w.points[last + 1][0].startswith("flag:") \
+                        and not w.points[last][0].startswith(("flag:", "useref", "useR")):
+                    ov2 = dict(ov)
+                    ov2[last + 1] = 1
+                    explore(ov2, last + 1)
                 return
             for j in range(last + 1, len(w.points)):
                 # very wide containers have hundreds of identical points: deviate on the first 12 and the last 3
